@@ -90,5 +90,5 @@ Example C02_nonvacuous :
              (wal_apply wal0 WOpen) in
   map pending (wal_crash w) = [[PAdd 0 1]; [PAdd 0 1; PDel 0]; [PAdd 0 1; PDel 0; PAdd 1 2]] /\
   spec ([ECall (NewWriter 1); ECall (AddDoc 1 1 0 1); ECall (DropWriter 1);
-         ECrash (NewWriter 1) true (Some []) (Some [PAdd 0 1])], [(0, 1)]) = true.
+         ECrash (NewWriter 1) true false (Some []) (Some [PAdd 0 1])], [(0, 1)]) = true.
 Proof. vm_compute. split; reflexivity. Qed.
